@@ -80,7 +80,9 @@ def r_iter_position(elem_type, contracts):
             mclose = match[mopen]
             param, body = _closure(text, toks, match, mopen)
             idents = set(t.text for t in tokenize(body) if t.kind == 'id')
-            chosen = [c for c in contracts if c[0] in idents]
+            ren = getattr(u, 'current_renames', {}) or {}
+            rn = lambda s: re.sub(r'(?<![\w.])(%s)\b' % '|'.join(re.escape(k) for k in ren), lambda m: ren[m.group(1)], s) if ren else s
+            chosen = [(ren.get(c[0], c[0]), rn(c[1]), c[2]) for c in contracts if ren.get(c[0], c[0]) in idents]
             if not chosen:
                 raise LostAnchor('%s: KO1 no closure contract for a lookup closure mentioning none of %s' % (key, [c[0] for c in contracts]))
             _, ens, label = chosen[0]
